@@ -452,7 +452,8 @@ class Group:
         orders = coq_list([f"({k}, {v})" for k, v in self.orders["u"].items()], "(ty * list node)")
         extra = (f"Definition orders : list (ty * list node) :=\n  {orders}.\n"
                  f"Definition bad_mech := mismatches (mech_case_ok rt E orders {FUEL} {coq_bool(strict)}) cases.\n"
-                 f"Definition bad_agree := mismatches (mech_spec_agree rt E orders {FUEL}) cases.\n")
+                 f"Definition bad_agree := mismatches (mech_spec_agree rt E orders {FUEL}) cases.\n"
+                 f"Definition hyps_ok := orders_hyps_ok E [{self.reg.leaves['Any']}%nat] orders.\n")
         return base.replace(f"End {name}.\n", extra + f"End {name}.\n")
 
     def atom_eq_pairs(self):
@@ -525,15 +526,17 @@ def evaluate_groups_mech(run, groups, tag, per_file=10, strict=False):
             text += g.emit_mech(nm, strict)
             names.append(nm)
         for nm in names:
-            text += f"Eval vm_compute in {nm}.bad.\nEval vm_compute in {nm}.bad_mech.\nEval vm_compute in {nm}.bad_agree.\n"
+            text += (f"Eval vm_compute in {nm}.bad.\nEval vm_compute in {nm}.bad_mech.\n"
+                     f"Eval vm_compute in {nm}.bad_agree.\nEval vm_compute in {nm}.hyps_ok.\n")
         fname = f"cases_{tag}_{fi // per_file}.v"
         files[fname] = text
         order.append((fname, chunk))
     results = run.coq_eval_many(files, timeout=900)
     outs = ([], [], [])
+    hyps_bad = []
     for fname, chunk in order:
         res = results[fname]
-        if res is None or len(res) != 3 * len(chunk):
+        if res is None or len(res) != 4 * len(chunk):
             run.oblige(f"evaluate:{fname}", False, "model evaluation did not compile")
             for g in chunk:
                 for o in outs:
@@ -541,7 +544,11 @@ def evaluate_groups_mech(run, groups, tag, per_file=10, strict=False):
             continue
         for gi, g in enumerate(chunk):
             for k in range(3):
-                outs[k].extend((g, i) for i in lib.parse_nat_list(res[3 * gi + k]))
+                outs[k].extend((g, i) for i in lib.parse_nat_list(res[4 * gi + k]))
+            if res[4 * gi + 3].strip() != "true":
+                hyps_bad.append(g.env["module"])
+    run.oblige("tie:order_ok (hypotheses of C05_build_routes) holds on every observed graph.static_order",
+               not hyps_bad, "groups: " + ", ".join(hyps_bad[:5]))
     return outs
 
 
